@@ -37,7 +37,12 @@ OPS = [
     (r"\.is_some\(\)", ".is_none()"), (r"\.is_none\(\)", ".is_some()"), (r"\.is_empty\(\)", ".is_empty() == false"),
     (r"Ordering::Release", "Ordering::Relaxed"), (r"Ordering::Acquire", "Ordering::Relaxed"),
     (r"SyncAll", "SyncData"), (r"PersistMode::Buffer", "PersistMode::SyncData"),
+    # second batch
+    (r"\)\?;$", ").ok();"), (r"fetch_add\(", "fetch_sub("), (r"fetch_sub\(", "fetch_add("), (r"saturating_sub\(", "saturating_add("),
+    (r"\.is_ok\(\)", ".is_err()"), (r"\bcontinue;", "break;"), (r"\.try_send\(", ".send("), (r"\.unwrap_or_default\(\)", ".unwrap_or(1)"),
+    (r" = None;", " = Default::default();"), (r"\.iter\(\)", ".iter().rev()"), (r"\.values\(\)", ".values().skip(1)"), (r"\.into_iter\(\)", ".into_iter().rev()"),
 ]
+SECOND_BATCH_FROM = 24
 
 
 def code_lines(path):
@@ -57,6 +62,9 @@ def code_lines(path):
     return s, out
 
 
+ONLY_SECOND = False
+
+
 def gen(files, maxn, seed):
     rnd = random.Random(seed)
     ms = []
@@ -69,7 +77,9 @@ def gen(files, maxn, seed):
             if "log::" in l or "expect(" in l and "lock is poisoned" in l:
                 continue
             # operator mutants
-            for pat, rep in OPS:
+            for k_, (pat, rep) in enumerate(OPS):
+                if ONLY_SECOND and k_ < SECOND_BATCH_FROM:
+                    continue
                 for m in re.finditer(pat, l):
                     if "//" in l[:m.start()]:
                         continue
@@ -77,7 +87,7 @@ def gen(files, maxn, seed):
                     ms.append({"file": f, "line": i + 1, "op": "%s -> %s" % (pat, rep), "old_line": l, "new_line": new})
             # statement deletion: a call statement on one line
             st = l.strip()
-            if st.endswith(";") and not st.startswith(("let ", "return", "use ", "pub ", "const ", "static ", "break", "continue", "}")) and "(" in st and "=" not in st.split("(")[0]:
+            if not ONLY_SECOND and st.endswith(";") and not st.startswith(("let ", "return", "use ", "pub ", "const ", "static ", "break", "continue", "}")) and "(" in st and "=" not in st.split("(")[0]:
                 if st.endswith("?;") or st.endswith(");") or st.endswith(".ok();"):
                     ms.append({"file": f, "line": i + 1, "op": "delete statement", "old_line": l, "new_line": l[:len(l) - len(l.lstrip())] + "// (deleted)"})
     rnd.shuffle(ms)
@@ -166,6 +176,11 @@ def main():
     ap.add_argument("--seed", type=int, default=1)
     ap.add_argument("--jobs", type=int, default=8)
     a = ap.parse_args()
+    if a.cmd == "gen2":
+        global ONLY_SECOND
+        ONLY_SECOND = True
+        gen(a.files.split(",") if a.files else DEFAULT_FILES, a.max, a.seed)
+        return
     if a.cmd == "gen":
         gen(a.files.split(",") if a.files else DEFAULT_FILES, a.max, a.seed)
         return
